@@ -33,6 +33,7 @@ type tIn struct {
 type tOp struct {
 	in        tIn
 	out       string
+	n         int // number of destination writes made during the operation
 	call, ret int64
 	client    int
 }
@@ -44,6 +45,9 @@ type c15Run struct {
 	tick     int64
 	cur      map[int]*tOp
 	hist     [][]*tOp // per writer instance
+	global   []string // destination writes in arrival order (serialized entries), all instances
+	gstart   []int    // index into global where each instance starts
+	curGlobal []string
 	cond     zerolog.Level
 	trig     zerolog.Level
 	nLine    int
@@ -57,10 +61,13 @@ func (d c15Dst) record(l zerolog.Level, p []byte) {
 	if op == nil {
 		zsim.Fail("C15.unexpected_write", "destination written outside any operation: %s", clip(p, 80))
 	}
+	ent := string(p) + "|"
 	if r.levelDst {
-		op.out += fmt.Sprintf("%d:", int8(l))
+		ent = fmt.Sprintf("%d:", int8(l)) + ent
 	}
-	op.out += string(p) + "|"
+	op.out += ent
+	op.n++
+	r.global = append(r.global, ent)
 	zsim.Yield("dst.Write")
 	if r.blockDst == 1 {
 		zsim.Fault("dst_blocks")
@@ -98,6 +105,7 @@ func (d c15PlainDst) Write(p []byte) (int, error) {
 type tState struct {
 	triggered bool
 	held      string // serialized held lines
+	pos       int    // how much of the destination's global sequence is explained so far
 }
 
 func (r *c15Run) fmtLine(level int8, line string) string {
@@ -137,10 +145,21 @@ func (r *c15Run) model() porcupine.Model {
 		Init: func() interface{} { return tState{} },
 		Step: func(state, input, output interface{}) (bool, interface{}) {
 			ns, out := r.step(state.(tState), input.(tIn))
-			return out == output.(string), ns
+			op := output.(*tOp)
+			if out != op.out {
+				return false, ns
+			}
+			// the operation's writes must also be the next contiguous block of what the
+			// destination saw: lines of different operations may not interleave
+			g := r.curGlobal
+			if ns.pos+op.n > len(g) || strings.Join(g[ns.pos:ns.pos+op.n], "") != out {
+				return false, ns
+			}
+			ns.pos += op.n
+			return true, ns
 		},
 		DescribeOperation: func(input, output interface{}) string {
-			return fmt.Sprintf("%v -> %q", input, output)
+			return fmt.Sprintf("%v -> %q", input, output.(*tOp).out)
 		},
 	}
 }
@@ -240,6 +259,7 @@ func (c15World) Run(prop string, ch *zsim.Choices, trace bool) *RunResult {
 		}
 		for inst := 0; inst < nInst; inst++ {
 			r.hist = append(r.hist, nil)
+			r.gstart = append(r.gstart, len(r.global))
 			w := &zerolog.TriggerLevelWriter{Writer: dst, ConditionalLevel: r.cond, TriggerLevel: r.trig}
 			lg := zerolog.New(c15Tap{r, w}).Level(zerolog.Level(-128))
 			// at most ~24 ops per instance keep the linearizability check tractable
@@ -290,7 +310,9 @@ func (c15World) Run(prop string, ch *zsim.Choices, trace bool) *RunResult {
 		if s.Truncated {
 			return nil
 		}
+		r.gstart = append(r.gstart, len(r.global))
 		for inst, h := range r.hist {
+			r.curGlobal = r.global[r.gstart[inst]:r.gstart[inst+1]]
 			// sequential histories: op by op, for a readable message
 			seq := true
 			for i := 1; i < len(h); i++ {
@@ -303,6 +325,12 @@ func (c15World) Run(prop string, ch *zsim.Choices, trace bool) *RunResult {
 				for i, op := range h {
 					var want string
 					st, want = r.step(st, op.in)
+					if want == op.out {
+						if st.pos+op.n > len(r.curGlobal) || strings.Join(r.curGlobal[st.pos:st.pos+op.n], "") != want {
+							return viol("C15.sequence", "writer %d, operation %d %v: its lines are not the next lines the destination received", inst, i, descIn(op.in))
+						}
+						st.pos += op.n
+					}
 					if want != op.out {
 						return viol("C15.sequence", "writer %d, operation %d %v: destination received %q, the specification gives %q (cond=%d trig=%d)", inst, i, descIn(op.in), clipS(op.out, 300), clipS(want, 300), r.cond, r.trig)
 					}
@@ -311,7 +339,7 @@ func (c15World) Run(prop string, ch *zsim.Choices, trace bool) *RunResult {
 			}
 			var ops []porcupine.Operation
 			for _, op := range h {
-				ops = append(ops, porcupine.Operation{ClientId: op.client, Input: op.in, Call: op.call, Output: op.out, Return: op.ret})
+				ops = append(ops, porcupine.Operation{ClientId: op.client, Input: op.in, Call: op.call, Output: op, Return: op.ret})
 			}
 			switch porcupine.CheckOperationsTimeout(r.model(), ops, 20*time.Second) {
 			case porcupine.Illegal:
@@ -319,7 +347,7 @@ func (c15World) Run(prop string, ch *zsim.Choices, trace bool) *RunResult {
 				for _, op := range h {
 					d = append(d, fmt.Sprintf("[%d..%d] c%d %s -> %q", op.call, op.ret, op.client, descIn(op.in), clipS(op.out, 80)))
 				}
-				return viol("C15.linearizability", "writer %d: the concurrent history is not linearizable against the TriggerLevelWriter specification (cond=%d trig=%d):\n%s", inst, r.cond, r.trig, strings.Join(d, "\n"))
+				return viol("C15.linearizability", "writer %d: no sequential order of the concurrent operations explains both each operation's own output and the order in which the destination received the lines (cond=%d trig=%d):\n%s\ndestination order: %s", inst, r.cond, r.trig, strings.Join(d, "\n"), clipS(strings.Join(r.curGlobal, " "), 600))
 			case porcupine.Unknown:
 				s.Probes["linearizability_inconclusive"]++
 			default:
